@@ -77,7 +77,7 @@ var verifAllocOps = []int{opAlloc, opAllocRaw, opAllocN, opFree, opFreeNew, opOv
 func verifCfgVariant(cfg *progCfg) {
 	if verifParam("opset", 0) == 1 {
 		// allocation / free only (longer transactions stay affordable)
-		cfg.ops = []int{opAllocRaw, opAllocN, opFreeNew, opFree}
+		cfg.ops = []int{opAllocRaw, opAllocRawN, opFreeNew, opFree}
 	}
 	switch verifParam("variant", 0) {
 	case 1:
